@@ -1,12 +1,26 @@
 #!/bin/bash
-# Re-run every archived seeded change against the check(s) recorded as detecting it; report any that
-# the current machinery no longer detects.  usage: tools/seedregress.sh [names...]
+# Re-run every archived seeded change against the check(s) recorded as detecting it; report any that the
+# current machinery no longer detects, and keep the shrunk replay cases as regression corpus entries
+# (corpus/<ID>/mut-<name>-<n>.json).  usage: tools/seedregress.sh [names...]
 cd /verif
 NAMES=${@:-$(ls seeded | grep -E '^C[0-9]+-[A-H]$')}
 for N in $NAMES; do
   DET=$(/venv/bin/python -c "import json;print(' '.join(json.load(open('/verif/seeded/$N/meta.json')).get('confirmed',{}).get('detected_by',[])))" 2>/dev/null)
   [ -z "$DET" ] && { echo "$N: (recorded as undetected) skip"; continue; }
-  OUT=$(LINES_MAX=2 tools/seedtest.sh seeded/$N $DET 2>&1 | grep -v conda)
-  if echo "$OUT" | grep -q "PATCH FAILED"; then echo "$N: patch no longer applies to the current tree (skipped)"; continue; fi
-  if echo "$OUT" | grep -q "VIOLATION"; then echo "$N: still detected by $(echo "$OUT" | grep -o 'VIOLATION property=C[0-9]*' | sort -u | sed 's/VIOLATION property=//' | tr '\n' ' ')"; else echo "$N: NOT DETECTED ANY MORE (was: $DET)"; echo "$OUT" | tail -3; fi
+  RD=/verif/.work/harvest-$N; rm -rf $RD; mkdir -p $RD
+  OUT=$(VERIF_REPLAYS=$RD LINES_MAX=2 tools/seedtest.sh seeded/$N $DET 2>&1 | grep -v conda)
+  if echo "$OUT" | grep -q "PATCH FAILED"; then echo "$N: patch no longer applies to the current tree (skipped)"; rm -rf $RD; continue; fi
+  if echo "$OUT" | grep -q "VIOLATION"; then
+    i=0
+    for f in $RD/*.json; do
+      [ -f "$f" ] || continue
+      [ $(stat -c %s "$f") -gt 20000 ] && continue
+      P=$(basename $f | cut -d- -f1); mkdir -p corpus/$P; i=$((i+1))
+      /venv/bin/python -c "
+import json
+o=json.load(open('$f')); json.dump({'from_seeded_change':'$N','label':o['label'],'case':o['case']},open('/verif/corpus/$P/mut-$N-$i.json','w'))"
+    done
+    echo "$N: still detected by $(echo "$OUT" | grep -o 'VIOLATION property=C[0-9]*' | sort -u | sed 's/VIOLATION property=//' | tr '\n' ' ') ($i replay case(s) kept)"
+  else echo "$N: NOT DETECTED ANY MORE (was: $DET)"; echo "$OUT" | tail -3; fi
+  rm -rf $RD
 done
